@@ -25,6 +25,7 @@ func init() {
 			"1 request in 4 to a template with a composite segment leaves out, cuts short, re-cases, replaces or extends one literal of that segment (2 in 3 the closing one: /reports/7, /reports/7.csv, /reports/7.pdf.sig for /reports/{id}.pdf). " +
 			"One template in 14 is x{a} beside a plain {p} (the kind of prefixed template the unchanged tree dispatches), one in 10 is declared under (nearly) all seven methods; 3 requests in 16 carry Accept: text/x-none / a text/x-none body / no Accept at all. " +
 			"3 descriptions in 10 are served through another exported constructor: RoutesHandler(Builder), APIHandler(Builder), Serve, ServeWithBuilder, and (1 in 10) a generated-server style RoutableAPI under NewRoutableContext whose parameter objects read route.Params.Get; a Builder middleware notes MatchedRouteFrom(r).PathPattern/.Params. " +
+			"1 placeholder name in 5 (after the first of a template) is derived from an earlier one of the same template: another letter case ({id}/{ID}, {petId}/{petid}), an extension ({id}/{id2}, {id}/{idx}) or a proper prefix; 1 operation in 5 declares optional query / header parameters named like a placeholder (same name, another case, an extension) and 3 requests in 4 to it carry values for them; 1 operation in 4 declares its path parameters in reverse order; descriptions with related names go every second time through a Builder / generated-server entry point. " +
 			"Oracle = segment-wise matcher on path.Clean(URL.EscapedPath()) written from the statement; the escaped path is noted BEFORE the library gets the request (TCP: by a wrapper around the library's handler inside the server). non-trivial = (description hash, METHOD, cleaned target) where some template fits under some method or the target shares >= 2 leading segments with a template; distinct by that triple",
 		Assumptions: []string{
 			"descriptions with two templates of identical shape (after cleaning) are not generated (invalid Swagger)",
@@ -32,6 +33,8 @@ func init() {
 			"targets that net/http's parser rejects (invalid escapes, CTLs) never reach the handler and are not judged",
 			"a request that asks for or sends a media type the API does not speak (Accept: text/x-none, Content-Type: text/x-none) and fits a template may be refused with 406/415 without a handler running (class fit-refused-by-media-type-*); if a handler runs it must be the designated one; the 404/405/Allow expectations are unchanged",
 			"MatchedRouteFrom(r) seen by a Builder middleware: when present its PathPattern must be the designated template under the base path and Params.Get(name) the value the handler received; its absence is only counted (class matched-route-absent-from-context); a request URL rewritten by the library is only counted (class request-url-rewritten-by-the-library)",
+			"related names: what the handler receives is judged by name for every placeholder when a generated-server style binder reads route.Params, and MatchedRouteFrom(r).Params.Get/GetOK seen by a Builder must yield the instantiating text for EVERY placeholder (a mismatch is reported as wrong-path-params). The untyped binder hands the handler one map keyed by parameter name: an entry whose name a query / header parameter of the operation bears too is not judged (class untyped-binder-entry-shared-with-query-or-header-parameter-not-judged: which of the two values lands there follows map order on the unchanged tree); an entry that is ABSENT next to a delivered entry whose name is equal up to letter case and punctuation ({id}/{ID}, {id}/{id_}: the dependency that collects an operation's parameters keys them by Go-ified name and keeps one) is not judged either (class untyped-binder-entry-absent-next-to-delivered-twin-name-not-judged), the delivered one is judged like any other",
+			"signature classes simple/placeholder-names-differ-only-in-case, simple/placeholder-name-prefix-of-another, simple/placeholder-name-related-to-query-or-header-parameter: the request meets (loosely) a template with such names and no composite / prefixed / ':'-'*' template (input feature only)",
 			"loopback TCP arm: the listener is opened with 5 attempts, each request is sent up to 3 times on fresh connections; a request that never reached the library's handler and got no answer is counted (tcp-undelivered, note tcp_undelivered), a listener that cannot be opened is counted (tcp-harness-listen-failed, note tcp_listen_failed): neither is ever a violation. A panic of the library under the real server is a violation (the wrapper catches it before net/http does); 'handler returned, no parsable answer' is judged as an answer without status only when all three attempts went that way",
 			"signature classes: prefixed-placeholder-segment/routed-as-parameter = every x{a} template the request meets also has a plain {p} segment, no {a}.{b} segment, and the request writes each literal as declared followed by a non-empty text (dispatched by the unchanged tree, never a known finding); .../empty-text-after-literal = the same but a request segment is just the literal; panic/colon-or-star-.../no-two-wildcards-at-one-position = a panic for a request that does not reach two '*' literals at one trie position under one method (the recorded panic needs two)",
 			"signature classes of handler-ran-without-fit/composite-segment: the recorded defect (the segment is one parameter of the trie router, split afterwards) leaves the placeholder in front of a literal that the request lacks EMPTY (422 'required' from the untyped binder, an empty text in a generated server). .../text-bound-before-absent-closing-literal = the template whose handler ran has a segment closed by a literal ({id}.pdf, {a}.{b}.gz) that the request's segment does not end with (as sent or decoded), and the handler received a non-empty text for the placeholder in front of it; .../every-placeholder-bound-to-text = the handler received a non-empty text for every placeholder of its template. Neither is covered by a known finding; the unchanged tree runs no handler for such requests through the untyped binder (class no-fit-and-closing-literal-of-composite-absent[-no-handler-ran])",
@@ -48,6 +51,9 @@ type Req struct {
 	Target mon.Q  `json:"target"`
 	// Hdr selects the header variant (see rawRequest); "" = Accept: application/json and no body
 	Hdr string `json:"hdr,omitempty"`
+	// Extra header lines (name, value): values for header parameters that the operation declares under a name
+	// related to one of its placeholders (round 10)
+	Extra [][2]string `json:"extra,omitempty"`
 }
 
 // Case is one description plus the requests sent to it.
@@ -433,6 +439,14 @@ func runCase(m *mon.M, c *Case) {
 		}
 		mine := fits[method]
 		feat := inputFeature(refs, segs)
+		rel := ""
+		if feat == "simple" {
+			// templates the request meets whose placeholder names are related to one another (or to a query / header
+			// parameter of the operation): "by name" is then a matter of its own (input feature only)
+			if rel = nameRelation(refs, segs); rel != "" {
+				feat = "simple/" + rel
+			}
+		}
 		if feat == "composite-segment" && len(mine) > 0 {
 			// The recorded defect of composite segments concerns requests that split in several ways or lack the
 			// separator. A request that every fitting template splits in exactly ONE way is dispatched correctly
@@ -525,16 +539,40 @@ func runCase(m *mon.M, c *Case) {
 				m.Violate("wrong-operation/"+feat, fmt.Sprintf("%s %q (cleaned %q): handler of %s ran, designated: %v", rq.Method, rq.Target, cleaned, s.obs.ranOp, ids), one)
 				continue
 			}
+			// What the handler received, by name. A generated-server style binder reads every placeholder from
+			// route.Params: all names are judged. The untyped binder hands over ONE map keyed by parameter name for the
+			// path, query and header parameters of the operation: an entry whose name a query / header parameter of the
+			// operation also bears is not a statement about the path value and is not judged (class); and the
+			// dependency that collects an operation's parameters keeps one of two names that are equal up to letter
+			// case and punctuation ({id} / {ID}): the entry that is absent next to its delivered twin is classed, the
+			// delivered one is judged like any other.
+			untypedBinder := c.Entry != entryRoutable
+			shared := map[string]bool{}
+			if untypedBinder {
+				for _, p := range chosen.rt.op.Params {
+					if p.In != "path" {
+						shared[p.Name] = true
+					}
+				}
+			}
 			okParams := false
+			var exps []map[string]string // the acceptable assignments that agree with what the handler received
+			dropped, skipped := 0, 0
 			for _, a := range chosen.assigns {
-				if sameMap(a, s.obs.params) {
-					okParams = true
-					break
+				if ok, d, sk := agrees(a, s.obs.params, untypedBinder, shared); ok {
+					okParams, dropped, skipped = true, d, sk
+					exps = append(exps, a)
 				}
 			}
 			if !okParams {
 				m.Violate("wrong-path-params/"+feat, fmt.Sprintf("%s %q (cleaned %q): %s received %v, expected one of %v", rq.Method, rq.Target, cleaned, s.obs.ranOp, s.obs.params, chosen.assigns), one)
 				continue
+			}
+			if dropped > 0 {
+				m.Class("untyped-binder-entry-absent-next-to-delivered-twin-name-not-judged")
+			}
+			if skipped > 0 {
+				m.Class("untyped-binder-entry-shared-with-query-or-header-parameter-not-judged")
 			}
 			if resp.status != 200 {
 				m.Violate("wrong-status-after-handler/"+feat, fmt.Sprintf("%s %q: handler ran but status %d", rq.Method, rq.Target, resp.status), one)
@@ -556,6 +594,9 @@ func runCase(m *mon.M, c *Case) {
 					}
 					bad := ""
 					for n, v := range s.obs.params {
+						if shared[n] {
+							continue // (the untyped binder's entry may be that of the query / header parameter)
+						}
 						if got := s.obs.mrParams.Get(n); got != v {
 							bad = fmt.Sprintf("MatchedRouteFrom(r).Params.Get(%q) = %q, the handler received %q", n, got, v)
 						}
@@ -564,10 +605,35 @@ func runCase(m *mon.M, c *Case) {
 						m.Violate("wrong-matched-route-params/"+feat, fmt.Sprintf("%s %q (cleaned %q): %s", rq.Method, rq.Target, cleaned, bad), one)
 						continue
 					}
+					// ... and by name they are the texts that instantiate the placeholders (EVERY placeholder, whatever
+					// the binder made of it), through both accessors: the same failure kind as a wrong value in the
+					// handler's hands, seen through the matched route
+					for _, exp := range exps {
+						bad = ""
+						for n, v := range exp {
+							vals, hasKey, hasValue := s.obs.mrParams.GetOK(n)
+							if got := s.obs.mrParams.Get(n); got != v || !hasKey || hasValue != (v != "") || len(vals) != 1 || vals[0] != v {
+								bad = fmt.Sprintf("MatchedRouteFrom(r).Params.Get(%q) = %q, GetOK = (%q, %v, %v); the text instantiating {%s} is %q (Params %v; acceptable: %v)", n, got, vals, hasKey, hasValue, n, v, s.obs.mrParams, exps)
+							}
+						}
+						if bad == "" {
+							break
+						}
+					}
+					if bad != "" {
+						m.Violate("wrong-path-params/"+feat, fmt.Sprintf("%s %q (cleaned %q): %s", rq.Method, rq.Target, cleaned, bad), one)
+						continue
+					}
 					m.Class("matched-route-agrees")
 				}
 			}
 			m.Class("dispatched")
+			if r := templateRelation(chosen.rt); r != "" {
+				m.Class("dispatched-" + r)
+				if c.Entry != entryRoutes {
+					m.Class("dispatched-" + r + "-entry-" + c.Entry)
+				}
+			}
 			if c.Entry != entryRoutes {
 				m.Class("dispatched-entry-" + c.Entry)
 			}
@@ -597,7 +663,9 @@ func runCase(m *mon.M, c *Case) {
 					// for some placeholder (the segment is one parameter of the trie router, split afterwards; the piece
 					// whose literal the request lacks is empty: 422 from the untyped binder, "" in a generated server).
 					// A handler that runs with texts the recorded defect cannot hand over has a class of its own.
-					if sub := compositeRunSubclass(refs, s.obs.ranOp, s.obs.params, segs); sub != "" {
+					// (an entry of the untyped binder's map whose name a query / header parameter of the operation bears
+					// too says nothing about the path value: it is left out of this classification)
+					if sub := compositeRunSubclass(refs, s.obs.ranOp, pathEntries(refs, s.obs.ranOp, s.obs.params, c.Entry != entryRoutable), segs); sub != "" {
 						runFeat = feat + "/" + sub
 					}
 				}
@@ -960,6 +1028,212 @@ func sameMap(a, b map[string]string) bool {
 	return true
 }
 
+// ---------- related names ----------
+
+const (
+	relTwin   = "placeholder-names-differ-only-in-case"
+	relPrefix = "placeholder-name-prefix-of-another"
+	relShared = "placeholder-name-related-to-query-or-header-parameter"
+)
+
+// looseEq: the names are equal up to letter case and bytes outside [A-Za-z0-9] ("id" / "ID" / "id!" / "i_d").
+func looseEq(a, b string) bool {
+	strip := func(s string) string {
+		var sb strings.Builder
+		for i := 0; i < len(s); i++ {
+			if c := s[i]; (c >= '0' && c <= '9') || (c >= 'a' && c <= 'z') || (c >= 'A' && c <= 'Z') || c >= 0x80 {
+				sb.WriteByte(c)
+			}
+		}
+		return sb.String()
+	}
+	return strings.EqualFold(strip(a), strip(b))
+}
+
+// templateRelation names how the placeholder names of ONE template (and the names of the query / header
+// parameters of its operation) are related to one another. Input feature only.
+func templateRelation(rt *refTemplate) string {
+	var names []string
+	for _, parts := range rt.segs {
+		for _, p := range parts {
+			if p.name != "" {
+				names = append(names, p.name)
+			}
+		}
+	}
+	twin, prefix, sharedName := false, false, false
+	for i, a := range names {
+		for j, b := range names {
+			if i == j || a == b {
+				continue
+			}
+			if strings.EqualFold(a, b) {
+				twin = true
+			} else if strings.HasPrefix(strings.ToLower(b), strings.ToLower(a)) {
+				prefix = true
+			}
+		}
+		for _, p := range rt.op.Params {
+			if p.In == "path" {
+				continue
+			}
+			la, lp := strings.ToLower(a), strings.ToLower(p.Name)
+			if strings.HasPrefix(lp, la) || strings.HasPrefix(la, lp) {
+				sharedName = true
+			}
+		}
+	}
+	switch {
+	case twin:
+		return relTwin
+	case prefix:
+		return relPrefix
+	case sharedName:
+		return relShared
+	}
+	return ""
+}
+
+// nameRelation: the strongest relation among the templates (of any method) that the request meets loosely.
+func nameRelation(refs []*refTemplate, segs []string) string {
+	best := ""
+	for _, rt := range refs {
+		if !looseFit(rt, segs) {
+			continue
+		}
+		switch r := templateRelation(rt); {
+		case r == relTwin:
+			return relTwin
+		case r == relPrefix:
+			best = relPrefix
+		case r == relShared && best == "":
+			best = relShared
+		}
+	}
+	return best
+}
+
+// agrees: the handler received (got) the assignment want, by name. Entries named in shared are not judged; an
+// entry of want that is absent from got is accepted only from the untyped binder and only next to a delivered
+// entry whose name is equal up to letter case and punctuation.
+func agrees(want, got map[string]string, untypedBinder bool, shared map[string]bool) (ok bool, dropped, skipped int) {
+	for k, v := range got {
+		if shared[k] {
+			skipped++
+			continue
+		}
+		if w, has := want[k]; !has || w != v {
+			return false, 0, 0
+		}
+	}
+	for k := range want {
+		if _, has := got[k]; has || shared[k] {
+			continue
+		}
+		if !untypedBinder {
+			return false, 0, 0
+		}
+		twin := false
+		for k2 := range want {
+			if _, delivered := got[k2]; k2 != k && delivered && looseEq(k, k2) {
+				twin = true
+			}
+		}
+		if !twin {
+			return false, 0, 0
+		}
+		dropped++
+	}
+	return true, dropped, skipped
+}
+
+// pathEntries: what the handler of ranOp received, less the entries of the untyped binder's map whose name a
+// query / header parameter of that operation bears too.
+func pathEntries(refs []*refTemplate, ranOp string, got map[string]string, untypedBinder bool) map[string]string {
+	if !untypedBinder {
+		return got
+	}
+	out := map[string]string{}
+	for k, v := range got {
+		out[k] = v
+	}
+	for _, rt := range refs {
+		if rt.op.ID == ranOp {
+			for _, p := range rt.op.Params {
+				if p.In != "path" {
+					delete(out, p.Name)
+				}
+			}
+		}
+	}
+	return out
+}
+
+// caseVariants: other spellings of w that differ from it only in letter case.
+func caseVariants(w string) []string {
+	if w == "" {
+		return nil
+	}
+	flip := func(i int) string {
+		b := []byte(w)
+		if c := b[i]; (c >= 'a' && c <= 'z') || (c >= 'A' && c <= 'Z') {
+			b[i] ^= 0x20
+		}
+		return string(b)
+	}
+	var out []string
+	for _, v := range []string{strings.ToUpper(w), strings.ToLower(w), flip(0), flip(len(w) - 1)} {
+		if v != w {
+			out = append(out, v)
+		}
+	}
+	return out
+}
+
+// relatedName derives from w a name that no placeholder of the template bears yet: 3 times in 6 another letter
+// case of it ({id} / {ID}, {petId} / {petid}), else an extension ({id} / {id2}) or a proper prefix of it. "" = none.
+func relatedName(r *rand.Rand, w string, used map[string]bool) string {
+	var c []string
+	switch k := r.Intn(6); {
+	case k < 3:
+		c = caseVariants(w)
+	case k < 5:
+		c = []string{w + "2", w + "x", w + "Id", w + "_"}
+	default:
+		if len(w) > 1 {
+			c = []string{w[:len(w)-1], w[:1]}
+		}
+	}
+	if len(c) == 0 {
+		return ""
+	}
+	at := r.Intn(len(c))
+	for i := range c {
+		if v := c[(at+i)%len(c)]; v != "" && v != w && !used[v] && !strings.ContainsAny(v, "{}/") {
+			return v
+		}
+	}
+	return ""
+}
+
+// headerToken: the name can be written as an HTTP header name, and is none that net/http or the library reads.
+func headerToken(n string) bool {
+	if n == "" {
+		return false
+	}
+	for i := 0; i < len(n); i++ {
+		c := n[i]
+		if !((c >= '0' && c <= '9') || (c >= 'a' && c <= 'z') || (c >= 'A' && c <= 'Z') || strings.IndexByte("!#$%&'*+-.^_`|~", c) >= 0) {
+			return false
+		}
+	}
+	switch strings.ToLower(n) {
+	case "host", "accept", "connection", "content-type", "content-length", "transfer-encoding", "te", "trailer", "upgrade", "expect":
+		return false
+	}
+	return true
+}
+
 // ---------- generation ----------
 
 var methods = []string{"GET", "POST", "PUT", "DELETE", "PATCH", "HEAD", "OPTIONS"}
@@ -969,7 +1243,7 @@ var richLiterals = []string{"items:batchGet", "a*w9", "v=1", "caf\u00e9", "Users
 
 // (names with bytes outside [A-Za-z0-9_-] are legal; "a.b" is left out because the dependency that collects an
 // operation's parameters keys them by their Go-ified name, under which "a.b" and "ab" are the same parameter)
-var placeholderWords = append([]string{"api", "a", "b", "x", "p", "ap", "book.id", "v~1", "k$", "id!"}, gen.Words...)
+var placeholderWords = append([]string{"api", "a", "b", "x", "p", "ap", "book.id", "v~1", "k$", "id!", "id", "petId"}, gen.Words...)
 
 // literals that close a composite segment ({id}.pdf, {name}:cancel, {a}.{b}.gz)
 var closingLiterals = []string{".pdf", ".gz", ":cancel", "_v1", ".json", ".x"}
@@ -985,12 +1259,22 @@ func genTemplate(r *rand.Rand, id int) string {
 	var sb strings.Builder
 	np := 0
 	usedNames := map[string]bool{}
-	name := func() string {
+	var names []string
+	name := func() (n string) {
 		np++
+		defer func() {
+			usedNames[n] = true
+			names = append(names, n)
+		}()
+		if len(names) > 0 && r.Intn(5) == 0 {
+			// a name related to an earlier one of this template: another letter case, an extension, a prefix
+			if w := relatedName(r, names[r.Intn(len(names))], usedNames); w != "" {
+				return w
+			}
+		}
 		if r.Intn(5) == 0 {
 			// a name that also occurs as plain text in templates and base paths ("/tag/{tag}", "/api" + "/{a}")
 			if w := gen.Pick(r, placeholderWords); !usedNames[w] {
-				usedNames[w] = true
 				return w
 			}
 		}
@@ -1104,8 +1388,39 @@ func genDesc(r *rand.Rand) gen.Desc {
 			}
 			used[meth] = true
 			op := gen.Op{ID: fmt.Sprintf("op%d_%s", len(seen), meth), Method: meth, Template: tpl}
-			for _, pn := range gen.PlaceholderNames(tpl) {
+			pns := gen.PlaceholderNames(tpl)
+			for _, pn := range pns {
 				op.Params = append(op.Params, gen.Param{Name: pn, In: "path", Type: "string", Required: true})
+			}
+			if len(pns) > 1 && r.Intn(4) == 0 {
+				// (the order in which the parameters are declared is not the order of the placeholders)
+				for a, b := 0, len(op.Params)-1; a < b; a, b = a+1, b-1 {
+					op.Params[a], op.Params[b] = op.Params[b], op.Params[a]
+				}
+			}
+			if len(pns) > 0 && r.Intn(5) == 0 {
+				// optional query / header parameters named like a placeholder of the template (the same name, another
+				// letter case of it, an extension of it)
+				seenX := map[string]bool{}
+				for e, ne := 0, 1+r.Intn(2); e < ne; e++ {
+					nm := pns[r.Intn(len(pns))]
+					switch r.Intn(4) {
+					case 0:
+						if cv := caseVariants(nm); len(cv) > 0 {
+							nm = cv[r.Intn(len(cv))]
+						}
+					case 1:
+						nm += "2"
+					}
+					in := "query"
+					if r.Intn(3) == 0 && headerToken(nm) {
+						in = "header"
+					}
+					if k := in + "#" + strings.ToLower(nm); !seenX[k] {
+						seenX[k] = true
+						op.Params = append(op.Params, gen.Param{Name: nm, In: in, Type: "string"})
+					}
+				}
 			}
 			d.Ops = append(d.Ops, op)
 		}
@@ -1352,14 +1667,42 @@ func genRequests(r *rand.Rand, d *gen.Desc, n int) []Req {
 		case 2:
 			hdr = hdrNoAccept
 		}
-		out = append(out, Req{Method: randCase(r, meth), Target: mon.Q(t), Hdr: hdr})
+		var extra [][2]string
+		if len(op.Params) > len(gen.PlaceholderNames(op.Template)) && t != "*" && r.Intn(4) > 0 {
+			// values for the query / header parameters of the operation that are named like its placeholders
+			for _, p := range op.Params {
+				v := []string{"qv1", "hv2", "", "a", "x%2Fy"}[r.Intn(5)]
+				switch p.In {
+				case "query":
+					sep := "?"
+					if strings.Contains(t, "?") {
+						sep = "&"
+					}
+					t += sep + url.QueryEscape(p.Name) + "=" + v
+				case "header":
+					extra = append(extra, [2]string{p.Name, v})
+				}
+			}
+		}
+		out = append(out, Req{Method: randCase(r, meth), Target: mon.Q(t), Hdr: hdr, Extra: extra})
 	}
 	return out
 }
 
 // genEntry: 7 descriptions in 10 through RoutesHandler(nil) as before, 1 in 10 the way a generated server is
 // built (a RoutableAPI handed to NewRoutableContext), the rest through the other exported constructors.
-func genEntry(r *rand.Rand) string {
+func genEntry(r *rand.Rand, d *gen.Desc) string {
+	// a description with related names: every second one through an entry point where the matched route is seen
+	// by a Builder or read by a generated-server style binder
+	related := false
+	for i := range d.Ops {
+		if templateRelation(newRefTemplate(d.BasePath, &d.Ops[i])) != "" {
+			related = true
+		}
+	}
+	if related && r.Intn(2) == 0 {
+		return []string{entryRoutable, entryRoutable, entryRoutesBuilder, entryAPI, entryServeBuilder}[r.Intn(5)]
+	}
 	switch r.Intn(20) {
 	case 0, 1:
 		return entryRoutable
@@ -1383,7 +1726,7 @@ func run(m *mon.M) {
 		if len(d.Ops) == 0 {
 			continue
 		}
-		c := &Case{Desc: d, Requests: genRequests(r, &d, 60), Entry: genEntry(r)}
+		c := &Case{Desc: d, Requests: genRequests(r, &d, 60), Entry: genEntry(r, &d)}
 		m.Begin(c)
 		runCase(m, c)
 	}
@@ -1394,7 +1737,7 @@ func run(m *mon.M) {
 		if len(d.Ops) == 0 {
 			continue
 		}
-		c := &Case{Desc: d, Requests: genRequests(r, &d, 40), TCP: true, Entry: genEntry(r)}
+		c := &Case{Desc: d, Requests: genRequests(r, &d, 40), TCP: true, Entry: genEntry(r, &d)}
 		m.Begin(c)
 		runCase(m, c)
 		m.Class("tcp-descriptions")
